@@ -102,7 +102,7 @@ func steps(kind string, n int, st upstream.Step) []upstream.Step {
 
 // Families are the scenario families of C01/C05/C19.
 var Families = []string{"steady", "reset-after-k", "neverack-restart", "neverack-restart-notraffic", "refuse-then-recover", "late-ack",
-	"stop-with-pending-acks", "stop-mid-chunk", "restarts-in-a-row", "open-at-stop", "wrong-id", "blackhole-restart", "two-outputs-one-faulty", "overflow", "session-renewal", "young-pipeline-at-stop", "interrupted-recovery", "quota-headroom", "renewal-unacked"}
+	"stop-with-pending-acks", "stop-mid-chunk", "restarts-in-a-row", "open-at-stop", "wrong-id", "blackhole-restart", "two-outputs-one-faulty", "overflow", "session-renewal", "young-pipeline-at-stop", "interrupted-recovery", "quota-headroom", "renewal-unacked", "renewal-after-reset"}
 
 // GenScenario draws one scenario of a family.
 func GenScenario(r *rand.Rand, family string, idx int, o Opt) Scenario {
@@ -313,6 +313,20 @@ func GenScenario(r *rand.Rand, family string, idx int, o Opt) Scenario {
 			}
 		}
 		sc.Gens = []GenSpec{{Conns: cs, UpScript: all(steps("neverack", 2+r.Intn(3), upstream.Step{})), WaitAcked: true}}
+	case "renewal-after-reset":
+		// the upstream resets the connection right after it has received a chunk, without acknowledging it: the acknowledger
+		// ends by itself. Everything was sent at the start, so the pipeline is idle afterwards and the next thing the session
+		// sees is upstream.maxDuration (25 ms; the next ping is 60 ms away): the graceful end of a session whose acknowledger
+		// is already gone, with the unacknowledged chunk in its hands (seeded c01-s6). Later the upstream is healthy.
+		sc.Outputs = 1
+		sc.MaxDurMs = 25
+		sc.ChunkBytes = 6000
+		one := ConnSpec{ID: nextID}
+		nextID++
+		for q := 1; q <= 4+r.Intn(6); q++ {
+			one.Recs = append(one.Recs, Rec{Conn: one.ID, Seq: q, App: "appA", Sev: 6, Host: "h1", Kind: "plain", Pad: r.Intn(60)})
+		}
+		sc.Gens = []GenSpec{{Conns: []ConnSpec{one}, UpScript: all(steps("reset", 1+r.Intn(3), upstream.Step{N: 1})), WaitAcked: true}}
 	case "session-renewal":
 		sc.MaxDurMs = 20 + r.Intn(60)
 		cs := conns()
